@@ -238,6 +238,12 @@ let run_op (ctx : ctx) (op : string) : string =
     let p = unhex f.(1) and off = nat_of_int (int_of_string f.(2)) in
     on_res (uncompress_with_previous_offset p off) (fun (v, o) -> Printf.sprintf "OK:%s@%d" (hex v) (int_of_nat o))
   | "C" -> on_res (compress (unhex f.(1))) (fun v -> "OK:" ^ hex v)
+  | "CU" ->
+    on_res (compress (unhex f.(1))) (fun v ->
+        match uncompress_with_previous_offset v (nat_of_int 12) with
+        | Ok (u, _) -> Printf.sprintf "OK:%s|%s" (hex v) (hex u)
+        | Err e -> Printf.sprintf "OK:%s|%s" (hex v) (err e)
+        | Panic s -> raise (Model_panic (int_of_n s)))
   | "Y" -> on_res (rr_from_string (unhex f.(1))) (fun v -> "OK:" ^ hex v)
   | "Z" ->
     let z = if f.(2) = "-" then None else Some (unhex f.(2)) in
